@@ -162,9 +162,35 @@ def run_vectors(prog, rep):
                 rmok = rmarg and rmarg[0] == ('v', rmparam[0]['lid'], rmparam[0]['name'])
             else:
                 rmok = rmarg and rmarg[0] == ('e', RM + 'Inclusive')
-            rule.check(same_idx and eqlen and bool(rmok), key + '|elementwise', rep.where(c), f.label(),
-                       'element i of starts and ends, equal lengths enforced, range mode handed down',
-                       'same index for both vectors: %s, equal-length guard: %s, range mode handed down: %s' % (same_idx, eqlen, bool(rmok)))
+            # every element is converted on its own: apart from starts[i] / ends[i] the call's arguments do not change from one iteration to the next
+            carried = []
+            loops = [a for a in c.ancestors() if a.k in ('for', 'rangefor', 'while')]
+            if loops:
+                lp = loops[0]
+                idxv = t0[3] if same_idx else None
+                modified_in_loop = set()
+                for lid, ms in sem.mods(f).items():
+                    for m in ms:
+                        direct = m.k in ('assign', 'unop') or (m.k == 'call' and m.get('op') in ('=', '+=', '-=', '*=', '/=', '++', '--'))
+                        if direct and any(x is lp for x in m.ancestors()):
+                            modified_in_loop.add(lid)
+                fl_ = Flow(sem, f)
+                for a in args[2:]:
+                    for x in a.walk():
+                        if x.k == 'ref' and x.decl.get('kind') in ('local', 'param') and x.decl.get('lid') in modified_in_loop and ('v', x.decl.get('lid'), x.decl.get('name')) != idxv:
+                            carried.append(x.decl.get('name'))
+                # the result of element i must not be rewritten with loop-carried state either
+                for m in f.walk():
+                    if any(x is lp for x in m.ancestors()) and (m.k == 'assign' or (m.k == 'call' and m.get('op') == '=')) and m.id > c.id:
+                        for x in m.c[1].walk():
+                            if x.k == 'ref' and x.decl.get('kind') == 'local' and x.decl.get('lid') in modified_in_loop and ('v', x.decl.get('lid'), x.decl.get('name')) != idxv:
+                                v = sem.local_vars(f).get(x.decl.get('lid'))
+                                if v is not None and not any(y is lp for y in v.ancestors()) and 'vector' not in (v.get('type') or '') and 'optional' not in (v.get('type') or ''):
+                                    carried.append(x.decl.get('name'))
+            rule.check(same_idx and eqlen and bool(rmok) and not carried, key + '|elementwise', rep.where(c), f.label(),
+                       'element i of starts and ends, equal lengths enforced, range mode handed down, no state carried between elements',
+                       'same index for both vectors: %s, equal-length guard: %s, range mode handed down: %s%s' % (same_idx, eqlen, bool(rmok),
+                        '; the conversion of element i depends on %s, which earlier elements modify: overlapping or repeated ranges in one list are converted differently from the single conversions' % sorted(set(carried)) if carried else ''))
     if n < 5:
         raise AnalysisBroken('R-PAIR-VEC: only %d vector overloads found' % n)
     return rule
